@@ -3,7 +3,7 @@
    list of integers.  Both the extracted OCaml driver and the coqc/vm_compute
    cross-check call exactly this function.  Byte strings inside [args] are
    length-prefixed. *)
-From Cam Require Import Outcome Bytes Chunks Cmd.
+From Cam Require Import Outcome Bytes Chunks Cmd Ack Event.
 
 Definition BAD_ARGS : list Z := [-99].
 
@@ -24,7 +24,17 @@ Definition d_c09 (code : Z) (args : list Z) : list Z :=
   | _, _ => BAD_ARGS
   end.
 
+(* byte strings arrive length-prefixed *)
+Definition d_c08 (code : Z) (args : list Z) : list Z :=
+  match code, args with
+  | 801, n :: bs => if zlen bs =? n then run_ack bs else BAD_ARGS
+  | 802, n :: bs => if zlen bs =? n then run_event bs else BAD_ARGS
+  | 803, n :: bs => if zlen bs =? n then run_ack_with true bs else BAD_ARGS
+  | _, _ => BAD_ARGS
+  end.
+
 Definition dispatch (code : Z) (args : list Z) : list Z :=
   if (1000 <? code) && (code <? 1100) then d_c10 code args
   else if (900 <? code) && (code <? 1000) then d_c09 code args
+  else if (800 <? code) && (code <? 900) then d_c08 code args
   else BAD_ARGS.
